@@ -432,6 +432,31 @@ def boolterm(b):
 
 # --------------------------------------------------------------------------------------
 
+class PseudoModel(object):
+    """values of the free constants of a satisfiable query, transported from a solver child process"""
+    def __init__(self, vals):
+        self.vals = vals
+        self._pairs = None
+
+    def pairs(self):
+        if self._pairs is None:
+            ps = []
+            for name, (kind, v) in self.vals.items():
+                if kind == 'r':
+                    ps.append((z3.Real(name), z3.RealVal(v)))
+                elif kind == 'i':
+                    ps.append((z3.Int(name), z3.IntVal(v)))
+                elif kind == 'b':
+                    ps.append((z3.Bool(name), z3.BoolVal(v == 'True')))
+            self._pairs = ps
+        return self._pairs
+
+    def eval(self, term, model_completion=True):
+        ps = self.pairs()
+        t = z3.substitute(term, *ps) if ps else term
+        return z3.simplify(t)
+
+
 class Engine(object):
     def __init__(self, feas_timeout_ms=500, shard=None, shard_depth=0, use_lemmas=True):
         self.pre = []
@@ -597,33 +622,54 @@ class Engine(object):
 
     # ---- branching
     def sat_check(self, extras, timeout_ms):
-        """satisfiability of pre + pc (+ lemmas) + extras.  Lemma instances are true facts about total
-        functions: when the rest is UF-free they cannot affect satisfiability, so they are dropped and the
-        pure real-arithmetic problem goes to nlsat (exact and fast at finding models)."""
-        from .solve import _has_uf, _nlsat_tactic
+        """satisfiability of pre + pc (+ lemmas) + extras, decided in a forked, hard-killable child (z3's own
+        timeout is cooperative and is sometimes ignored).  Lemma instances are true facts about total functions:
+        when the rest is UF-free they cannot affect satisfiability, so they are dropped and the pure real-arithmetic
+        problem goes to nlsat.  -> ('sat', PseudoModel) | ('unsat', None) | ('unknown', None)"""
+        from .solve import _has_uf, _nlsat_tactic, hard_call
         base = self.pre + self.pc + list(extras)
         t0 = time.time()
         if not _has_uf(base):
-            s = _nlsat_tactic().solver()
+            mk = lambda: _nlsat_tactic().solver()      # noqa
             cons = base
         else:
-            s = z3.Solver()
+            mk = lambda: z3.Solver()                   # noqa
             cons = base + (self.lemmas if self.use_lemmas else [])
-        s.set('timeout', int(timeout_ms))
-        for c in cons:
-            s.add(c)
-        try:
+
+        def work():
+            s = mk()
+            for c in cons:
+                s.add(c)
             r = s.check()
-        except z3.Z3Exception:
-            r = z3.unknown
+            if r == z3.sat:
+                m = s.model()
+                vals = {}
+                for d in m.decls():
+                    if d.arity() == 0:
+                        v = m[d]
+                        if z3.is_int_value(v):
+                            vals[d.name()] = ('i', str(v.as_long()))
+                        elif z3.is_rational_value(v):
+                            vals[d.name()] = ('r', '%d/%d' % (v.numerator_as_long(), v.denominator_as_long()))
+                        elif z3.is_algebraic_value(v):
+                            fr = v.approx(20)
+                            vals[d.name()] = ('r', '%d/%d' % (fr.numerator_as_long(), fr.denominator_as_long()))
+                        elif z3.is_true(v) or z3.is_false(v):
+                            vals[d.name()] = ('b', str(z3.is_true(v)))
+                return 'sat', vals
+            if r == z3.unsat:
+                return 'unsat', None
+            return 'unknown', None
+        res = hard_call(work, max(0.3, timeout_ms / 1000.0))
         self.stats['feas_checks'] += 1
         self.stats['feas_s'] += time.time() - t0
-        if r == z3.sat:
-            try:
-                return 'sat', s.model()
-            except z3.Z3Exception:
-                return 'unknown', None
-        if r == z3.unsat:
+        if res is None:
+            self.stats['feas_unknown'] += 1
+            return 'unknown', None
+        r, vals = res
+        if r == 'sat':
+            return 'sat', PseudoModel(vals)
+        if r == 'unsat':
             return 'unsat', None
         self.stats['feas_unknown'] += 1
         return 'unknown', None
